@@ -528,7 +528,9 @@ func (f *FaceModule) destroy(interest *spec.Interest, pitToken []byte, inFace ui
 		core.LogInfo(f, "Ignoring attempt to delete non-existent face with FaceID=", *params.FaceId)
 	}
 
-	response = makeControlResponse(200, "OK", params.ToDict())
+	// Only FaceId is echoed: echoing every received parameter failed to build a response
+	// (nil) when the command carried a Strategy, which is not a plain value in a dict
+	response = makeControlResponse(200, "OK", map[string]any{"FaceId": *params.FaceId})
 	f.manager.sendResponse(response, interest, pitToken, inFace)
 }
 
